@@ -41,8 +41,11 @@ def run_parts(c, drv, mode, pos, tag, env):
             outs.append(out)
             if r.returncode == 0:
                 return outs, restarts
-            if r.returncode == 7 and "RESUME" in r.stderr and restarts < 25:
+            if r.returncode == 7 and "RESUME" in r.stderr:
                 frm = int(r.stderr.strip().split("RESUME")[-1].split()[0]); restarts += 1
+                if restarts >= 6:      # hangs are already recorded (each one a verdict); do not keep paying 2 s per hang
+                    c.note("%s part %d/%d abandoned after %d hangs (each recorded); remaining work items of that part not executed" % (mode, k, PARTS, restarts))
+                    return outs, restarts
                 continue
             raise Infra("driver helpers14 %s failed rc=%d: %s" % (mode, r.returncode, r.stderr[-2000:]))
     evs, restarts = [], 0
@@ -115,7 +118,7 @@ def run(c):
     digested = set()
     for ln in events:
         if ln.startswith('{"op":"Digest"'):
-            e = json.loads(ln); evals += 65536 - e["counts"][5]; skipped += e["counts"][5]; distinct += 65536
+            e = json.loads(ln); tot = sum(e["counts"]); evals += tot - e["counts"][5]; skipped += e["counts"][5]; distinct += tot
             digested.add((e["h"], tuple(e["in"])))
     for ln in events:
         if ln.startswith('{"op":"Chunk"'):
@@ -129,68 +132,86 @@ def run(c):
             else: evals += 1
             if e["in"]: c.count_distinct((e["h"], tuple(e["in"])))
     c.cov["skipped_recorded_hang_class"] = skipped
+    # MISMATCH lines are <<"MISMATCH", l, kind, class, count, first>>; helper, frame and panic text come from the event
+    def sig_of(e, t):
+        """(fn, kind) of the panic a line talks about"""
+        if t[2] not in ("PANIC", "INFO"): return ("", "")
+        if e["op"] == "Call": return (e["fn"], e["kind"])
+        if e["op"] == "Digest": sg = e["sigs"][int(t[5]) - 1]
+        else: sg = e["sigs"][e["codes"][int(t[5])] - 10]
+        return (sg["fn"], sg["kind"])
+
+    def input_of(e, t):
+        if e["op"] == "Digest":
+            return e["sigs"][int(t[5]) - 1]["ex"] if t[2] in ("PANIC", "INFO") else e["in"]
+        return element(e, int(t[5]))
     notes, infos = {}, {}
     verdicts = []
     for idx, t in mism:
-        kind = t[3]
+        kind = t[2]
+        e = json.loads(events[idx])
         if kind == "BAD":
-            raise Infra("malformed observation at event %d: %s (%s)" % (idx, t[4], events[idx][:300]))
+            raise Infra("malformed observation at event %d: %s (%s)" % (idx, t[3], events[idx][:300]))
         if kind == "NOTE":
-            k = (t[2], t[4], t[5]); notes[k] = notes.get(k, 0) + int(t[7])
+            k = (e["h"], t[3]); notes[k] = notes.get(k, 0) + int(t[4])
         elif kind == "INFO":
-            k = (t[2], t[5], t[6]); infos[k] = infos.get(k, 0) + int(t[7])
+            k = (e["h"],) + sig_of(e, t); infos[k] = infos.get(k, 0) + int(t[4])
         else:
             verdicts.append((idx, t))
-    for (h, s, o), n in sorted(notes.items()):
-        c.note("result class: %s returns '%s' where the layout-based specification says '%s' (%d observed inputs)" % (opname(h), o, s, n))
+    for (h, so), n in sorted(notes.items()):
+        sp, ob = so.split(">")
+        c.note("result class: %s returns '%s' where the layout-based specification says '%s' (%d observed inputs)" % (opname(h), ob, sp, n))
     for (h, fn, kd), n in sorted(infos.items()):
         c.note("outside the property's list: %s panics in %s (%s) on %d observed inputs" % (h, fn, kd, n))
 
-    def info(idx, t):
+    def key_of(idx, t):
         e = json.loads(events[idx])
-        inp = element(e, int(t[8]))
-        if inp is None:      # digest: the example kept with the signature
-            inp = e["sigs"][int(t[8]) - 1]["ex"]
-        return e, inp
-
-    def key_of(t):
-        return (opname(t[2]), t[4] or ("%s:%s:%s" % (t[3].lower(), t[5], t[6])))
-    # reproduce (at most two per class) in ONE fresh driver run, hangs each in their own process
+        fn, kd = sig_of(e, t)
+        return (opname(e["h"]), t[3] or ("%s:%s:%s" % (t[2].lower(), fn, kd)))
+    # reproduce (at most two per class) in ONE fresh driver run; hangs each in their own process
     todo, seen = [], {}
     for idx, t in verdicts:
-        k = key_of(t); seen[k] = seen.get(k, 0) + 1
+        k = key_of(idx, t); seen[k] = seen.get(k, 0) + 1
         if seen[k] <= 2: todo.append((idx, t))
     confirmed = {}
-    pan = [(idx, t) for idx, t in todo if t[3] == "PANIC"]
+    pan = [(idx, t) for idx, t in todo if t[2] == "PANIC"]
     if pan:
-        cs = [dict(h=t[2], text=json.loads(events[idx])["text"], **{"in": info(idx, t)[1]}) for idx, t in pan]
+        cs = []
+        for idx, t in pan:
+            e = json.loads(events[idx])
+            cs.append({"h": e["h"], "text": e["text"], "in": input_of(e, t)})
         p = os.path.join(c.scratch, "confirm.json"); json.dump(cs, open(p, "w"))
         o = os.path.join(c.scratch, "confirm.ndjson")
         c.run_driver(drv, ["replay", p, o], env={"VERIF_C14_SKIPHANG": "0"})
         evs = read_ndjson(o)
+        if len(evs) != len(cs):
+            raise Infra("confirmation run produced %d events for %d cases" % (len(evs), len(cs)))
         again = {i: tt for i, tt in c.validate("Trace_C14", evs, shards=1)}
         c.cov["traces_validated_against_impl"] -= len(evs)
         for j, (idx, t) in enumerate(pan):
             tt = again.get(j)
-            confirmed[idx, tuple(t)] = bool(tt) and tt[3] == "PANIC" and tt[4] == t[4] and tt[5] == t[5]
+            e2 = json.loads(evs[j])
+            confirmed[idx, tuple(t)] = bool(tt) and tt[2] == "PANIC" and tt[3] == t[3] and (e2["fn"], e2["kind"]) == sig_of(json.loads(events[idx]), t)
     for idx, t in todo:
-        if t[3] != "HANG": continue
-        e, inp = info(idx, t)
+        if t[2] != "HANG": continue
+        e = json.loads(events[idx])
         if e["text"]:
             raise Infra("hang on a text helper: extend the probe sub-command")     # not expected; probe takes octets
-        hx = "".join("%02x" % x for x in inp)
+        hx = "".join("%02x" % x for x in input_of(e, t))
         o = os.path.join(c.scratch, "confirm-hang-%d.ndjson" % idx)
-        r = c.run_driver(drv, ["probe", o, t[2], hx], timeout=60, check=False)
+        r = c.run_driver(drv, ["probe", o, e["h"], hx], timeout=60, check=False)
         confirmed[idx, tuple(t)] = r.returncode == 7 and any('"cls":"hang"' in x for x in read_ndjson(o))
 
     def classify(idx, t):
-        e, inp = info(idx, t)
-        op, cls = key_of(t)
+        e = json.loads(events[idx])
+        inp = input_of(e, t)
+        fn, kd = sig_of(e, t)
+        op, cls = key_of(idx, t)
         what = "%s(%s%s) %s%s; %d such input(s) in this event" % (
             op, "text " if e["text"] else "", json.dumps(inp)[:160],
-            "does not return within 2 s" if t[3] == "HANG" else "panics in %s: %s" % (t[5], t[6]),
-            "" if t[4] else " - not a recorded finding class", int(t[7]))
-        return (op, cls, what, dict(helper=t[2], text=e["text"], input=inp, observed=dict(kind=t[3], fn=t[5], panic=t[6]),
+            "does not return within 2 s" if t[2] == "HANG" else "panics in %s: %s" % (fn, kd),
+            "" if t[3] else " - not a recorded finding class", int(t[4]))
+        return (op, cls, what, dict(helper=e["h"], text=e["text"], input=inp, observed=dict(kind=t[2], fn=fn, panic=kd),
                                     how="driver helpers14 replay [ {h,text,in} ] out.ndjson (hang: helpers14 probe out.ndjson <helper> <hex>); validate with spec/trace/Trace_C14"))
 
     def confirm(idx, t):
